@@ -781,6 +781,7 @@ func eofSiblingRule(R string) RuleFunc {
 // slashEOFRule: the end of the input right after the first slash of an annotation is an error.
 // sw sets the mark, clears clear it as their first statement, tail tests it before the lexeme stack.
 func slashEOFRule(R, sw string, clears []string, tail string) RuleFunc {
+	const flag = "slashPending"
 	return func(c *core.Ctx) {
 		c.Rule(R, "the scanner remembers that it is between the two characters of an annotation opening ("+sw+" sets slashPending; the states that read the second character clear it as their first statement) and "+tail+" raises ErrUnexpectedEOF when the input ends in that situation - before it looks at the lexeme stack. Otherwise `1 /` (`[1] /`) is accepted as if the slash were absent while `1 /⏎` is refused: a trailing line end changes the verdict, and a text that is not a list with optional annotations is an accepted enum rule")
 		c.Floor(R, 2+len(clears))
@@ -818,7 +819,7 @@ func slashEOFRule(R, sw string, clears []string, tail string) RuleFunc {
 		chk(tail, func(b *ast.BlockStmt) bool {
 			ok := false
 			for _, st := range b.List {
-				if ifs, isIf := st.(*ast.IfStmt); isIf && core.ExprStr(ifs.Cond) == "s.slashPending" {
+				if ifs, isIf := st.(*ast.IfStmt); isIf && hasDisjunct(ifs.Cond, "s."+flag) {
 					ast.Inspect(ifs.Body, func(n ast.Node) bool {
 						switch n := n.(type) {
 						case *ast.CallExpr:
@@ -839,5 +840,108 @@ func slashEOFRule(R, sw string, clears []string, tail string) RuleFunc {
 			}
 			return ok
 		}, "the end of the input is refused while a slash is pending", "the end of the input right after `/` is accepted")
+	}
+}
+
+// hasDisjunct: is `want` the condition or one operand of a chain of ||?
+func hasDisjunct(cond ast.Expr, want string) bool {
+	cond = ast.Unparen(cond)
+	if core.ExprStr(cond) == want {
+		return true
+	}
+	if be, ok := cond.(*ast.BinaryExpr); ok && be.Op == token.LOR {
+		return hasDisjunct(be.X, want) || hasDisjunct(be.Y, want)
+	}
+	return false
+}
+
+// blockCommentEOFRule: the end of the input inside a ### comment is an error.
+func blockCommentEOFRule(R string) RuleFunc {
+	return func(c *core.Ctx) {
+		c.Rule(R, "the schema scanner marks an open ### comment (blockCommentOpen set where the step becomes stateMultiLineComment, cleared where that state pops its return state) and Next() raises ErrUnexpectedEOF when the input ends while the mark is set, before it looks at the lexeme stack. A comment is not a lexeme: without the mark `1 ### c` is accepted, and any later ### in the text behind the schema closes the comment, so what follows moves the boundary Len() reports")
+		c.Floor(R, 3)
+		find := func(fn string) *core.DeclSite {
+			d := c.P.FindDecl(fn)
+			if d == nil {
+				c.Unresolved(R, fn)
+			}
+			return d
+		}
+		// set together with the transition into the comment state
+		if d := find("notations/jschema/scanner.stateAnyCommentStart"); d != nil {
+			ok := false
+			ast.Inspect(d.Decl.Body, func(n ast.Node) bool {
+				blk, isB := n.(*ast.BlockStmt)
+				if !isB {
+					return true
+				}
+				step, set := false, false
+				for _, st := range blk.List {
+					if as, isA := st.(*ast.AssignStmt); isA && len(as.Lhs) == 1 {
+						switch core.ExprStr(as.Lhs[0]) + "=" + core.ExprStr(as.Rhs[0]) {
+						case "s.step=stateMultiLineComment":
+							step = true
+						case "s.blockCommentOpen=true":
+							set = true
+						}
+					}
+				}
+				if step && set {
+					ok = true
+				}
+				if step && !set {
+					ok = false
+				}
+				return true
+			})
+			c.Check(ok, R, "stateAnyCommentStart:set", c.P.Pos(d.Decl.Pos()), "entering stateMultiLineComment sets blockCommentOpen", "the comment state is entered without the mark")
+		}
+		if d := find("notations/jschema/scanner.stateMultiLineComment"); d != nil {
+			ok := false
+			ast.Inspect(d.Decl.Body, func(n ast.Node) bool {
+				blk, isB := n.(*ast.BlockStmt)
+				if !isB {
+					return true
+				}
+				pop, clr := false, false
+				for _, st := range blk.List {
+					if as, isA := st.(*ast.AssignStmt); isA && len(as.Lhs) == 1 {
+						l, r := core.ExprStr(as.Lhs[0]), core.ExprStr(as.Rhs[0])
+						if l == "s.step" && strings.Contains(r, "returnToStep.Pop()") {
+							pop = true
+						}
+						if l == "s.blockCommentOpen" && r == "false" {
+							clr = true
+						}
+					}
+				}
+				if pop {
+					ok = clr
+				}
+				return true
+			})
+			c.Check(ok, R, "stateMultiLineComment:clear", c.P.Pos(d.Decl.Pos()), "leaving the comment state clears blockCommentOpen", "the mark survives the end of the comment: a closed comment at the end of the text would be refused")
+		}
+		if d := find("(*notations/jschema/scanner.Scanner).Next"); d != nil {
+			ok := false
+			for _, st := range d.Decl.Body.List {
+				ifs, isIf := st.(*ast.IfStmt)
+				if !isIf {
+					continue
+				}
+				if hasDisjunct(ifs.Cond, "s.blockCommentOpen") {
+					ast.Inspect(ifs.Body, func(n ast.Node) bool {
+						if call, isC := n.(*ast.CallExpr); isC && core.ExprStr(call.Fun) == "panic" {
+							ok = true
+						}
+						return true
+					})
+				}
+				if strings.Contains(core.ExprStr(ifs.Cond), "stack.Len()") && !ok {
+					break
+				}
+			}
+			c.Check(ok, R, "Next:eof", c.P.Pos(d.Decl.Pos()), "Next() refuses the end of the input inside a ### comment", "the end of the input inside a ### comment is accepted")
+		}
 	}
 }
